@@ -12,7 +12,7 @@ import base64
 
 from ..gen import cells as G
 from ..gen import bocdags as D
-from ..translate import boccells
+from ..translate import boccells, bocemit
 
 SPEC = dict(
     manifest=dict(
@@ -33,8 +33,12 @@ SPEC = dict(
              'TIE TO THE SOURCE, parser half: c03_src_parser / c03_roundtrip_src - Boc.deserialize, deserialize_cell and deserialize_boc_header are regenerated from deserialize.py on every run '
              '(harness/translate/pyloops.py, pybytes.py) and proved equal, for all byte lists, to Model/BocParse.lean (C05: c05_src_header, c05_src_deserialize_cell, c05_src_deserialize); hence the round trip '
              'holds with the regenerated parser in place of the hand model (cell constructor and Boc.__init__ stay hand models). A change of any line of those functions breaks a proof obligation; the check '
-             'then round-trips boundary DAGs (every data length around the byte boundaries, 1-4 references, exotic cells) first.',
-        level_note='Trusted: Lean kernel (propext, Classical.choice, Quot.sound); the hand models Model/BocEmit.lean (tied byte-for-byte in C04), Model/BocParse.lean (header parser, cell reader and the loops of deserialize: proved equal to the functions regenerated from the source, translator harness/translate/pyloops.py + pybytes.py trusted and validated against CPython on every change; Boc.__init__: tied differentially in C05 and here on '
+             'then round-trips boundary DAGs (every data length around the byte boundaries, 1-4 references, exotic cells) first. '
+             'TIE TO THE SOURCE, emitter half and input forms: Cell.serialize / order / to_boc (cell.py) and Boc.__init__ (deserialize.py) are regenerated on every run '
+             '(harness/translate/bocemit.py, pydict.py -> Generated/BocEmitSrc.lean) and proved equal, for all cell objects / option sets / iteration budgets / texts, to Model/BocEmit.lean and '
+             'BocForms.inputBytes (c03_src_emitter, c03_src_forms); c03_roundtrip_src2: regenerated emitter, regenerated input-form detection and regenerated parser compose to the identity on every '
+             'spec-valid DAG and all 6 valid option sets (bytes, hex and base64 form). bytes.fromhex / base64.b64decode, the cell constructor (C01/C02 tie) and the entry points stay hand models.',
+        level_note='Trusted: Lean kernel (propext, Classical.choice, Quot.sound); the hand models Model/BocEmit.lean (proved equal to the emitter regenerated from cell.py: translator pydict.py / pyobj.py + declared interface in bocemit.py + PyDict.lean trusted, validated against the library on every change; also tied byte-for-byte in C04), Model/BocParse.lean (header parser, cell reader and the loops of deserialize: proved equal to the functions regenerated from the source, translator harness/translate/pyloops.py + pybytes.py trusted and validated against CPython on every change; Boc.__init__: tied differentially in C05 and here on '
                    'every emitted bag <= 1500 bytes), Model/BocForms.lean (bocinput correspondence), Model/BocEntry.lean (bocone correspondence) and Model/Cell.lean (constructor, C01/C02); '
                    'base64/binascii/bytes.fromhex behave as modelled; SHA-256 abstract (arbitrary H) with the local NoCollision hypothesis; bounds 2^32 cells / 2^63 payload bytes are the format\'s. '
                    'Sampled only: model <-> library agreement (~15k model round trips + ~16k library round trips per quick run incl. 255/256/257 cells, payload 127..65536 bytes, depth-1023 chains, exotic cells, '
@@ -42,13 +46,14 @@ SPEC = dict(
         technique='Lean 4 proof (hand models of emitter and parser composed through the spec encoder; the parser model is proved equal to the parser regenerated from the source on every run) '
                   '+ full round trip through the library as oracle + differential correspondence of every model',
     ),
-    translators=[('deserialize.py deserialize_boc_header, deserialize_cell, deserialize->Generated/BocHeader.lean, BocCells.lean', boccells.regenerate)],
-    lean_targets=['TonVerif.Proofs.SrcBocDeser'],
+    translators=[('deserialize.py deserialize_boc_header, deserialize_cell, deserialize->Generated/BocHeader.lean, BocCells.lean', boccells.regenerate),
+                 ('cell.py Cell.serialize, order, to_boc; deserialize.py Boc.__init__->Generated/BocEmitSrc.lean', bocemit.regenerate)],
+    lean_targets=['TonVerif.Proofs.SrcBocDeser', 'TonVerif.Proofs.SrcBocEmit'],
     design_ref='DESIGN.md §6 C03',
     rule='same DAG generators as C04; each DAG x 6 option sets x {bytes, hex, base64} x {Cell, Slice, Builder}.one_from_boc (large DAGs: all option sets through Cell/bytes, one option set '
          'through all forms and entry points); distinct = distinct (dag, root, option set, form, entry); non-trivial = more than one cell or non-empty data',
     trusted_base=['Model/BocForms.lean mirrors the bytes / hex / base64 detection of Boc.__init__ by hand (bocinput correspondence)',
-                  'Model/BocEmit.lean mirrors Cell.order / serialize / to_boc (correspondence in C04)',
+                  'Model/BocEmit.lean: Cell.order / serialize / to_boc proved equal to the functions regenerated from cell.py (c03_src_emitter; trusted: translator pydict.py + interface in bocemit.py + PyDict.lean); Model/BocForms.inputBytes proved equal to the regenerated Boc.__init__ (c03_src_forms; fromhex / b64decode stay hand models)',
                   'Model/BocParse.lean: deserialize_boc_header / deserialize_cell / deserialize are proved equal to the functions regenerated from the source (c03_src_parser; trusted: the translator pyloops.py / pybytes.py and PyBytes.lean); Boc.__init__ by correspondence',
                   'Model/BocEntry.lean mirrors the three one_from_boc class methods, begin_parse and to_builder (bocone correspondence)'],
     assumptions=['bytes.fromhex / base64.b64decode behave as modelled', 'SHA-256 is abstract: theorems hold for every H under the local NoCollision hypothesis on the cells at hand'],
@@ -232,9 +237,44 @@ def check_forms_model(ctx, rng):
             ctx.corr_broken(f'input-form model != Boc.__init__ on text {t[:80]!r}: model {o[:80]} library {lib[:80]}')
 
 
+def check_forms_oracle(ctx, texts):
+    """the property's statement on Boc.__init__ alone: the hex / base64 text of a BoC parses to the same bytes as the bytes.  A text on
+    which the regenerated form detection and the model differ is judged by re-encoding what the LIBRARY decodes it to."""
+    from pytoniq_core.boc.deserialize import Boc
+    magic = bytes.fromhex('b5ee9c72')
+    bodies = [magic + bytes([i]) * (i % 5) for i in range(12)]
+    for t in texts:
+        try:
+            bodies.append(bytes(Boc(t).data))
+        except Exception:
+            pass
+    for b in bodies:
+        for form in ('hex', 'base64'):
+            try:
+                got = bytes(Boc(form_of(b, form)).data)
+            except Exception as e:
+                got = repr(e)
+            ctx.case(('forms-oracle', form, b), nontrivial=True)
+            if got != b:
+                ctx.fail(f'forms:{form}', f'Boc({form} text of a byte string).data differs from the byte string', {'bytes': b.hex(), 'form': form}, str(got)[:80], b.hex())
+
+
 def src_search(ctx):
-    """a source obligation of the parser broke: round-trip the boundary DAGs of C05's cell grid first"""
+    """a source obligation broke: (emitter / forms) Lean compares regenerated vs hand model on boundary DAGs and texts, the differing
+    ones are round-tripped first; (parser) round-trip the boundary DAGs of C05's cell grid"""
     from . import C05
+    cases = [c for c in bocemit.validation_dags() if len(c[1]) <= bocemit.BIG]
+    texts = [t for t in bocemit.validation_texts() if t.isascii()]
+    found, ftexts = bocemit.diff_inputs(ctx, cases, texts)
+    first = [(t, n, r) for t, n, r, _ in found]
+    for tag, nodes, root in first + [c for c in cases if c[0] not in {t for t, _, _ in first}]:
+        check_case(ctx, 'src-' + tag, nodes, root, entries=('cell',))
+        if len(ctx.failures) >= 3:
+            return True
+    if ftexts:
+        check_forms_oracle(ctx, ftexts)
+    if ctx.failures:
+        return True
     for tag, nodes, root in C05.boundary_dags(ctx.rng):
         check_case(ctx, tag, nodes, root, forms=('bytes',), entries=('cell',))
         if len(ctx.failures) >= 3:
